@@ -213,15 +213,18 @@ class _Limiter(Family):
 
     def key(self, case, obs):
         cap, rate = case["cap"], F(*case["rate"])
-        slow = "slow" if rate == 0 or F(cap) / rate > self.age else "fast"
-        span = case["evs"][-1][1] / 8 if case["evs"] else 0
-        periods = "0p" if span < self.period else "1-2p" if span < 3 * self.period else "3+p"
-        nips = len({ip for ip, _ in case["evs"]})
+        slow = rate == 0 or F(cap) / rate > self.age
+        # the class in which eviction can matter: slow refill and one address idle beyond the eviction age
+        last, idle = {}, False
+        for ip, t8 in case["evs"]:
+            if ip in last and t8 - last[ip] > self.age * 8:
+                idle = True
+            last[ip] = t8
+        kind = ("slow+idle>age" if idle else "slow") if slow else ("fast+idle>age" if idle else "fast")
         d = obs["dec"]
-        mix = "mixed" if "0" in d and "1" in d else "all-admit" if "1" in d else "all-refuse"
         ln = len(case["evs"])
         size = "len<=8" if ln <= 8 else "len<=50" if ln <= 50 else "len<=200" if ln <= 200 else "len>200"
-        return f"{slow}:{periods}:ips={min(nips, 3)}:{size}:{mix}{':gather' if case.get('gather') else ''}"
+        return f"{kind}:{size}:{'refusals' if '0' in d else 'no-refusal'}"
 
 
 class Small(_Limiter):
@@ -292,13 +295,16 @@ class History(_Limiter):
                 cap = max(cap, rng.choice([1, 3, 5, 10])) if den < 1024 else cap
             rate = F(num, den)
             menu = self.gap_menu(cap, rate)
-            profile = rng.choice(("mixed", "mixed", "burst", "drain-idle", "steady"))
+            profile = rng.choice(("mixed", "mixed", "burst", "drain-idle", "steady", "dense"))
             long_run = rng.random() < (0.04 if n >= 5000 else 0.0)  # thorough tier (per-shard n = 7500): up to 5000 events
             ln = rng.randint(200, 5000) if long_run else rng.choice((rng.randint(1, 12), rng.randint(5, 60), rng.randint(40, 200)))
             nips = rng.choice((1, 2, 2, 3, 4))
             t, evs = 0, []
             while len(evs) < ln:
-                if profile == "burst":
+                if profile == "dense":  # never idle for long: the window bound under sustained load
+                    one = 8 * den // num if (8 * den) % num == 0 and 8 * den // num <= 512 else 8
+                    g = rng.choice((0, 0, 1, 2, 4, 8, 16, one, one - 1 if one > 1 else 0, one + 1))
+                elif profile == "burst":
                     g = rng.choice((0, 0, 0, 0, 1, rng.choice(menu)))
                 elif profile == "steady":
                     g = rng.choice((8 * den // num if (8 * den) % num == 0 else 8, 8, 16, rng.choice(menu)))
@@ -360,7 +366,7 @@ class Wiring(Family):
         return (10 if case["cap"] is None else case["cap"], [1, 1] if case["rate"] is None else case["rate"], 30 if case["retry"] is None else case["retry"])
 
     def toml_text(self, case):
-        lines = self.capture.server_section() + ["[rate_limit]"]
+        lines = ["[rate_limit]"]
         if case["enabled"] is not None:
             lines.append(f"enabled = {self.W.toml_value(case['enabled'])}")
         if case["cap"] is not None:
